@@ -659,6 +659,29 @@ func (c *Ctx) load(st *State, prefix string, t types.Type, ref, idx Term) Val {
 		return Ptr{r, i, u.Elem()}
 	case *types.Slice:
 		is := c.idxSort()
+		if c.declBool && c.noName == 0 {
+			// one name per (heap version, location): repeated reads of the same header share their components, and the
+			// type invariant of the header is asserted once, globally, instead of once per read into the path condition
+			key := "sl|" + prefix + "|" + ref.S + "|" + idx.S + "|" + c.heapGet(st, prefix+"#ref", SInt).S + "|" + c.heapGet(st, prefix+"#off", is).S + "|" + c.heapGet(st, prefix+"#len", is).S + "|" + c.heapGet(st, prefix+"#cap", is).S
+			if v, ok := c.loadCache[key]; ok {
+				st.assume(c, app(SBool, "<=", v.(Slice).Ref, st.alloc))
+				return v
+			}
+			s := Slice{
+				c.name(c.readLeaf(st, prefix+"#ref", SInt, ref, idx), "lds"),
+				c.name(c.readLeaf(st, prefix+"#off", is, ref, idx), "ldo"),
+				c.name(c.readLeaf(st, prefix+"#len", is, ref, idx), "ldl"),
+				c.name(c.readLeaf(st, prefix+"#cap", is, ref, idx), "ldc"),
+				u.Elem(),
+			}
+			c.raw("(assert " + And(c.sliceWF(s)...).S + ")")
+			st.assume(c, app(SBool, "<=", s.Ref, st.alloc))
+			if c.loadCache == nil {
+				c.loadCache = map[string]Val{}
+			}
+			c.loadCache[key] = s
+			return s
+		}
 		s := Slice{
 			c.name(c.readLeaf(st, prefix+"#ref", SInt, ref, idx), "lds"),
 			c.name(c.readLeaf(st, prefix+"#off", is, ref, idx), "ldo"),
